@@ -155,9 +155,12 @@ def _observe(d):
     from fontTools.ttLib.standardGlyphOrder import standardGlyphOrder
 
     font, ufo = _compile(d)
+    # head.modified is "now" at every save unless told otherwise: two saves that straddle a second boundary would differ for a
+    # reason that has nothing to do with the property
+    font.recalcTimestamp = False
     b1 = io.BytesIO()
     font.save(b1)
-    f2 = TTFont(io.BytesIO(b1.getvalue()))
+    f2 = TTFont(io.BytesIO(b1.getvalue()), recalcTimestamp=False)
     b2 = io.BytesIO()
     f2.save(b2)
     if b1.getvalue() != b2.getvalue():
